@@ -12,6 +12,8 @@
 package verifsimrt
 
 import (
+	"encoding/base64"
+	"encoding/json"
 	"errors"
 	"fmt"
 	"io"
@@ -22,6 +24,7 @@ import (
 	"sort"
 	"syscall"
 	"time"
+	"unicode/utf8"
 )
 
 // ---------------------------------------------------------------- config
@@ -76,6 +79,42 @@ type Event struct {
 	Kind string `json:"kind"` // OUT ERR READ NOW ORDER BUILTIN EXIT PANIC BUDGET FILE SRC
 	Data string `json:"data,omitempty"`
 	N    int64  `json:"n,omitempty"`
+}
+
+// Events cross process boundaries as JSON (fresh-process runs, replay files);
+// data that is not valid UTF-8 (a read cut inside a character) travels as base64.
+type eventJSON struct {
+	Seq  int    `json:"seq"`
+	Kind string `json:"kind"`
+	Data string `json:"data,omitempty"`
+	B64  string `json:"data_b64,omitempty"`
+	N    int64  `json:"n,omitempty"`
+}
+
+func (e Event) MarshalJSON() ([]byte, error) {
+	j := eventJSON{Seq: e.Seq, Kind: e.Kind, N: e.N}
+	if utf8.ValidString(e.Data) {
+		j.Data = e.Data
+	} else {
+		j.B64 = base64.StdEncoding.EncodeToString([]byte(e.Data))
+	}
+	return json.Marshal(j)
+}
+
+func (e *Event) UnmarshalJSON(b []byte) error {
+	var j eventJSON
+	if err := json.Unmarshal(b, &j); err != nil {
+		return err
+	}
+	e.Seq, e.Kind, e.N, e.Data = j.Seq, j.Kind, j.N, j.Data
+	if j.B64 != "" {
+		d, err := base64.StdEncoding.DecodeString(j.B64)
+		if err != nil {
+			return err
+		}
+		e.Data = string(d)
+	}
+	return nil
 }
 
 type Result struct {
